@@ -1522,7 +1522,7 @@ class C12(Check):
         "definition attribute to_dict emits that the statement does not exclude is carried by such a slot (inp_attribute_coverage); the "
         "option keywords written are read, 2.0 omitting exactly the 2.2-specific ones (option_keywords_roundtrip); the text form of "
         "simple controls and rules re-parses to the same control (control_line_roundtrip, rule_text_roundtrip) with the counterexamples "
-        "for mixed AND/OR and for tank-head conditions. The real write_inpfile/read_inpfile is run on generated API-built models x flow "
+        "for mixed AND/OR and for tank-head conditions; number formats {:.kf} / {:.ng} modelled on Rat with proved error bounds and a per-slot precision requirement decided on the extracted format specs; the comparison normalisation is proved idempotent. The real write_inpfile/read_inpfile is run on generated API-built models x flow "
         "unit x version and compared field by field at the precision of the writer's own format specs; a second cycle must change nothing.",
         design_ref="DESIGN.md §5 C12",
         note="partial: modelled, not verified: number formatting and the INP tokeniser (the per-field error bound is derived from the "
@@ -1754,8 +1754,69 @@ class C12(Check):
                                 "parse_rules_lines blocks of rule %s" % n))
             else:
                 out.append(("X", "rules=%d parsed=%d" % (len(rules), len(parsed)), "parse_rules_lines finds another number of rules"))
+        out += self._clause_requests(wntr, wn, rules)
         out += self._format_requests(sp)
         return [(a, b, "%s: %s" % (label, c)) for a, b, c in out]
+
+    def _clause_requests(self, wntr, wn, rules):
+        """every premise WNTR writes, tokenised, read by the model's `parseAtom` against `generate_control`; every simple
+        control's action word read by the model's `parseAct` against `_read_control_line`"""
+        import io as _io
+        C = wntr.network.controls
+        io_ = wntr.epanet.io
+        U = wntr.epanet.util
+        out = []
+
+        def tok(w):
+            if re.match(r"^\d+:\d+:\d+$", w):
+                return "h:" + ":".join(str(int(x)) for x in w.split(":"))
+            try:
+                float(w)
+                return "n:0"
+            except ValueError:
+                return "w:" + w.lower()
+
+        def atom_str(a):
+            if a[0] in ("time", "clock"):
+                return "%s %s %d" % (a[0], {">": "gt", ">=": "ge", "<": "lt", "<=": "le", "=": "eq", "<>": "ne"}[a[1]], int(a[2]))
+            node = a[1] in ("Junction", "Tank", "Reservoir")
+            v = int(a[5]) if a[3] == "status" else 0
+            return "value %s %s %s %s %s %d" % ("node" if node else "link", a[1].lower(), a[2], a[3].lower(),
+                                                {">": "gt", ">=": "ge", "<": "lt", "<=": "le", "=": "eq", "<>": "ne"}[a[4]], v)
+        for n, c in rules:
+            r = io_._EpanetRule("x", U.FlowUnits.LPS, U.MassUnits.mg)
+            r.from_if_then_else(c)
+            try:
+                ctl = r.generate_control(wn)
+            except Exception:
+                continue
+            atoms = [a for _, a in flatten_cond(cond_tree(C, ctl._condition))]
+            if len(atoms) != len(r._if_clauses):
+                continue
+            for cl, a in zip(r._if_clauses, atoms):
+                w = cl.split()[1:]
+                if len(w) >= 5 and w[0].upper() == "SYSTEM" and w[-1].upper() in ("AM", "PM"):
+                    h, m, sec = [int(x) for x in w[3].split(":")]
+                    toks = ["w:system", "w:" + w[1].lower(), "w:" + w[2].lower(), "c:%d:%d:%d:%s" % (h, m, sec, w[-1].upper())]
+                else:
+                    toks = [tok(x) if i not in (1,) or w[0].upper() == "SYSTEM" else "w:" + x for i, x in enumerate(w)]
+                out.append(("K " + " ".join(toks), atom_str(a), "generate_control on clause %r" % cl.strip()))
+        inp = io_.InpFile()
+        inp.flow_units, inp.mass_units = U.FlowUnits.LPS, U.MassUnits.mg
+        buf = _io.BytesIO()
+        inp._write_controls(buf, wn)
+        for ln in buf.getvalue().decode().splitlines()[1:]:
+            w = ln.split()
+            if len(w) < 6:
+                continue
+            try:
+                ctl = io_._read_control_line(ln, wn, U.FlowUnits.LPS, "x")
+                act = ctl._then_actions[0]
+                exp = {"status": "status %d" % int(act._value) if act._attribute == "status" else "", "base_speed": "speed 0", "setting": "setting 0"}[act._attribute]
+            except Exception:
+                exp = "none"
+            out.append(("A %s %s" % (w[0].lower(), tok(w[2])), exp, "_read_control_line action of %r" % ln.strip()))
+        return out
 
     def _format_requests(self, sp):
         """number formats: the model's '{:.kf}' / '{:.ng}' on the exact rational of a double against Python's own formatting"""
